@@ -58,11 +58,11 @@ def run(chk):
                       mode='quads', count=300 if q else None))
     tasks.append(dict(n=3, order=ORDERS3[chk.seed % 6], via=None, kind='autoref', mode='binders', count=0))
     tasks.append(dict(n=4, order=ORDERS4[(chk.seed + 9) % 24], via=None, kind='bdd', mode='binders', count=0))
-    for i in range(4 if q else 32):
+    for i in range(chk.th(4, 32)):
         tasks.append(dict(n=[3, 4][i % 2], order=[ORDERS3, ORDERS4][i % 2][(chk.seed + 5 * i) % 6],
                           via=None, kind=['bdd', 'autoref'][(i // 2) % 2], mode='random',
-                          count=500 if q else 3000))
-    for i, o in enumerate(ORDERS3[:2 if q else 6]):
+                          count=chk.th(500, 3000)))
+    for i, o in enumerate(ORDERS3[:chk.th(2, 6)]):
         tasks.append(dict(n=3, order=o, via=None, kind=['bdd', 'autoref'][i % 2], mode='roundtrip', count=(0, 1)))
     if q:
         tasks.append(dict(n=4, order=ORDERS4[(chk.seed + 1) % 24], via=None, kind='bdd', mode='roundtrip', count=(chk.seed % 16, 16)))
@@ -75,7 +75,7 @@ def run(chk):
         tid += 1
     sw, res = chk.generate(exprgen.c05_task, tasks)
     chk.extra['renderings_judged'] = sum(r['events'] for r in res)
-    sh_stream = common.stage_histories(chk, ntraces=32 if q else 1500, steps=10 if q else 40,
+    sh_stream = common.stage_histories(chk, ntraces=chk.th(32, 1500), steps=chk.th(10, 40),
                                        nvars_choices=[3, 4, 4], profile='stream', tag='st')
     chk.validate('TraceSweep', 'TraceSweep.cfg', sw)
     sh_stream += common.stage_wide(chk, 'expr')
